@@ -260,6 +260,10 @@ def check_nd(case, ctx: Ctx):
         rows += pr
         weights += [1] * len(pr)
         ctx.label("prefilled")
+    elif case.get("empty_as") == "zero_rows":
+        # an array that holds no rows yet (e.g. an empty batch or chunk) instead of None
+        h = ctx.call("h(zero rows, adaptive)", physt.h, np.zeros((0, d)), "fixed_width", **kwargs)
+        ctx.label("empty_start", "empty_start_zero_rows")
     else:
         h = ctx.call("h(None, adaptive)", physt.h, None, "fixed_width", dim=d, **kwargs)
         ctx.label("empty_start")
@@ -381,7 +385,8 @@ def histories_nd(draw, tier="quick"):
     pre_row = st.lists(value_specs(max_k, allow_edge=False), min_size=d, max_size=d)
     prefill = draw(st.one_of(st.none(), st.lists(pre_row, min_size=1, max_size=4)))
     ops = draw(st.lists(op(), min_size=1, max_size=10 if tier == "thorough" else 6))
-    return {"w": ws_, "prefill": prefill, "ops": ops, "peek_first": draw(st.sampled_from([None, None, "bins", "bin_sizes", "densities"]))}
+    return {"w": ws_, "prefill": prefill, "ops": ops, "peek_first": draw(st.sampled_from([None, None, "bins", "bin_sizes", "densities"])),
+            "empty_as": draw(st.sampled_from(["none", "zero_rows"]))}
 
 
 # ---------------------------------------------------------------------------------
